@@ -97,6 +97,13 @@ v('C07', 'fire', KA, 'cho_solve((L, True), HP', 'cho_solve((L, False), HP')
 v('C07', 'fire', KA, 'S = HP @ H.T + R', 'S = HP @ H.T')
 v('C07 C19', 'fire', KA, 'K = cho_solve((L, True), HP, overwrite_b=True).T', 'K = cho_solve((L, True), P, overwrite_b=True).T')
 v('C07', 'silent', KA, 'U = np.eye(len(x)) - K.dot(H)', 'U = np.identity(len(x)) - K @ H')
+v('C11 C12', 'fire', 'filters.py', '.mean([1 - alpha, alpha])', '.mean([alpha, 1 - alpha])', 'interpolated attitude with swapped weights')
+v('C11 C12', 'fire', 'filters.py', '(1 - alpha) * first[LLA_COLS] + alpha * second[LLA_COLS]', 'alpha * first[LLA_COLS] + (1 - alpha) * second[LLA_COLS]', 'interpolated position with swapped weights')
+v('C11 C12', 'fire', 'filters.py', '(1 - alpha) * first[VEL_COLS] + alpha * second[VEL_COLS]', '(1 - alpha) * first[VEL_COLS] + alpha * second[LLA_COLS]', 'interpolated velocity mixes differently labelled selections')
+v('C11', 'fire', 'filters.py', '(measurement_time - time) / (next_time - time))', '(next_time - measurement_time) / (next_time - time))', 'epoch fraction measured from the wrong end')
+v('C11', 'fire', 'filters.py', 'pva = _interpolate_pva(trajectory.iloc[index], trajectory.iloc[index + 1],', 'pva = _interpolate_pva(trajectory.iloc[index + 1], trajectory.iloc[index],', 'epoch state: end rows swapped')
+v('C12', 'fire', 'filters.py', '        pva_average = _interpolate_pva(pva_old, pva_new, 0.5)', '        pva_average = _interpolate_pva(pva_old, pva_new, 1.0)', 'feedback: propagation matrices at the end state instead of the mid-point')
+v('C11 C12', 'silent', 'filters.py', '(1 - alpha) * first[LLA_COLS] + alpha * second[LLA_COLS]', 'first[LLA_COLS] + alpha * (second[LLA_COLS] - first[LLA_COLS])', 'incremental form of the same interpolation')
 v('C04', 'fire', 'error_model.py', 'Phi = 0.5 * (Fi[1:] + Fi[:-1]) * dt.reshape(-1, 1, 1)', 'Phi = (Fi[1:] + Fi[:-1]) * dt.reshape(-1, 1, 1)', 'propagation: average without the 1/2')
 v('C04', 'fire', 'error_model.py', 'accel_error = util.mv_prod(Fia, accel_error)', 'accel_error = util.mv_prod(Fig, accel_error)', 'propagation: accelerometer error through the gyro coupling')
 v('C04', 'fire', 'error_model.py', 'x[i + 1] = Phi[i].dot(x[i]) + delta_sensor[i] * dt[i]', 'x[i + 1] = Phi[i].dot(x[i]) + delta_sensor[i]', 'propagation: sensor term not multiplied by the step')
